@@ -108,6 +108,55 @@ def compare(ctx, t, programs, features, ac, std, name, what):
     return stats, mv, rv
 
 
+# Definitional identities between named quantities (SI brochure, table 4 ff.): what "interchangeable with the named quantity of that
+# dimension" means physically, independent of the exponents the tables declare.  (result, left, op, right); all of the default kind
+# (torque, the concentrations, the charge / current densities ... carry a special kind upstream by design and are not listed).
+IDENTITIES = [
+    ("velocity", "length", "/", "time"), ("acceleration", "velocity", "/", "time"), ("jerk", "acceleration", "/", "time"),
+    ("force", "mass", "*", "acceleration"), ("energy", "force", "*", "length"), ("power", "energy", "/", "time"),
+    ("pressure", "force", "/", "area"), ("area", "length", "*", "length"), ("volume", "area", "*", "length"),
+    ("momentum", "mass", "*", "velocity"), ("mass_density", "mass", "/", "volume"), ("specific_volume", "volume", "/", "mass"),
+    ("volume_rate", "volume", "/", "time"), ("mass_rate", "mass", "/", "time"), ("action", "energy", "*", "time"),
+    ("electric_charge", "electric_current", "*", "time"), ("electric_potential", "power", "/", "electric_current"),
+    ("electrical_resistance", "electric_potential", "/", "electric_current"), ("electrical_conductance", "electric_current", "/", "electric_potential"),
+    ("capacitance", "electric_charge", "/", "electric_potential"), ("magnetic_flux", "electric_potential", "*", "time"),
+    ("magnetic_flux_density", "magnetic_flux", "/", "area"), ("inductance", "magnetic_flux", "/", "electric_current"),
+    ("electric_field", "electric_potential", "/", "length"),
+    ("magnetic_field_strength", "electric_current", "/", "length"), ("luminance", "luminous_intensity", "/", "area"),
+    ("molar_mass", "mass", "/", "amount_of_substance"),
+    ("molar_energy", "energy", "/", "amount_of_substance"), ("molar_volume", "volume", "/", "amount_of_substance"),
+    ("catalytic_activity", "amount_of_substance", "/", "time"), ("heat_capacity", "energy", "/", "temperature_interval"),
+    ("specific_heat_capacity", "heat_capacity", "/", "mass"), ("molar_heat_capacity", "heat_capacity", "/", "amount_of_substance"),
+    ("heat_flux_density", "power", "/", "area"), ("radiant_exposure", "energy", "/", "area"), ("dynamic_viscosity", "pressure", "*", "time"),
+    ("thermal_conductance", "power", "/", "temperature_interval"), ("temperature_gradient", "temperature_interval", "/", "length"),
+    ("specific_power", "power", "/", "mass"), ("power_rate", "power", "/", "time"), ("frequency_drift", "frequency", "/", "time"),
+    ("linear_mass_density", "mass", "/", "length"), ("areal_mass_density", "mass", "/", "area"), ("available_energy", "energy", "/", "mass"),
+    ("electric_dipole_moment", "electric_charge", "*", "length"), ("electric_flux", "electric_potential", "*", "length"),
+    ("frequency", "velocity", "/", "length"), ("time", "length", "/", "velocity"), ("length", "velocity", "*", "time"),
+    ("ratio", "length", "/", "length"), ("ratio", "energy", "/", "energy"), ("reciprocal_length", "ratio", "/", "length"),
+]
+# dimensionless quantities of a special kind convert to and from a plain ratio
+DIMENSIONLESS_KINDS = ["angle", "solid_angle", "information"]
+
+
+def identity_programs(t):
+    qts = {q.module: q for q in quantity_types(t)}
+    out = []
+    for r, a, op, b in IDENTITIES:
+        if not all(x in qts for x in (r, a, b)):
+            continue
+        qa, qb, qr = qts[a], qts[b], qts[r]
+        dims = [x + y if op == "*" else x - y for x, y in zip(qa.dims, qb.dims)]
+        res = PG.QT(dims, "Kind", qa.base)
+        out.append((PG.Program(f"(let {qr.sexp()} {res.sexp()})", [("a", qa.rust()), ("b", qb.rust())], f"let x: {qr.rust()} = a {op} b; d(&x)", f"{r} = {a} {op} {b}"),
+                    f"{r} = {a} {op} {b}"))
+    for m in DIMENSIONLESS_KINDS:
+        if m in qts and "ratio" in qts:
+            out.append((PG.P_from(qts[m], qts["ratio"], "from"), f"{m} -> ratio (both dimensionless)"))
+            out.append((PG.P_from(qts["ratio"], qts[m], "into"), f"ratio -> {m} (both dimensionless)"))
+    return out
+
+
 def run(ctx):
     if not ctx.translate():
         return
@@ -120,7 +169,20 @@ def run(ctx):
         return
     quick = ctx.tier == "quick"
     programs = generate(t, ctx.rng, quick)
+    ident = identity_programs(t)
+    first_ident = len(programs)
+    programs += [p for p, _ in ident]
     stats, mv, rv = compare(ctx, t, programs, FEATURES, True, True, "c01", "C01: static result dimension/kind of an operator")
+    # the property's own oracle, independent of the declared exponents: definitional identities between named quantities must type-check
+    ident_bad = 0
+    for k, (p, what) in enumerate(ident):
+        v = rv.get(first_ident + k, (None, []))
+        if v[0] is False:
+            ident_bad += 1
+            if ident_bad <= 3:
+                ctx.violation({"kind": "program", "spec": "C01: the result of the operator is interchangeable with the named quantity of that dimension", "identity": what,
+                               "program": p.rust_fn(f"p{first_ident + k}"), "detail": f"rustc rejects it {sorted(set(v[1]))}", "features": FEATURES,
+                               "how_to_replay": "put PRELUDE (vlib/progs.py) and this function into a crate depending on uom (path /repo) with the listed features; cargo check"})
     # the not_autoconvert! twins of the operator impls compute their Output types separately: same programs, autoconvert off
     sub = [p for k, p in enumerate(programs) if k % 3 == 0 or "Dimension<" in p.rust_fn("x")]
     stats2, _, _ = compare(ctx, t, sub, [f for f in FEATURES if f != "autoconvert"], False, True, "c01noac",
@@ -129,12 +191,13 @@ def run(ctx):
     cov["rustc_without_autoconvert"] = stats2
     cov["programs_without_autoconvert"] = len(sub)
     cov["programs"] = len(programs)
+    cov["definitional_identities"] = {"checked": len(ident), "rejected_by_rustc": ident_bad}
     cov["evaluations"] = len(programs)
     cov["distinct_nontrivial"] = len({p.sexp for p in programs})
     cov["disagreements_checked"] = stats["mismatches"] + stats2["mismatches"]
     cov["rustc"] = stats
     cov["rule"] = ("one-line Rust functions over the 115 SI quantity aliases (x 12 seed-chosen partners + itself; thorough: all ordered pairs) for * and /, all unary forms "
-                   "(recip, sqrt, cbrt, powi N3..P3, neg, scalar left/right, abs/signum), mul_add, let-binding of a product to the named alias; 9 synthetic types "
+                   "(recip, sqrt, cbrt, powi N3..P3, neg, scalar left/right, abs/signum), mul_add, let-binding of a product to the named alias; ~60 definitional identities between named quantities (velocity = length / time ... ) that must type-check whatever the tables say; 9 synthetic types "
                    "with a distinct exponent in every base position (default, angle and information kinds, two base-unit sets); verdict and static result type "
                    "(to_i32 of every exponent, Kind type name, base units) from rustc vs the extracted typing judgement")
     cov["samples"] = [{"program": programs[i].rust_fn(f"p{i}"), "model": str(mv.get(i)), "rustc": str(rv.get(i))} for i in ctx.rng.fork("s").sample(list(range(len(programs))), 4)]
